@@ -520,12 +520,14 @@ func matchLikePattern(text, pattern string) bool {
 	ti, pi := 0, 0
 	starIdx, matchIdx := -1, 0
 	for ti < len(text) {
-		if pi < len(pattern) && (pattern[pi] == '_' || pattern[pi] == text[ti]) {
-			ti++
-			pi++
-		} else if pi < len(pattern) && pattern[pi] == '%' {
+		// '%' in the pattern is always a wildcard: test it before the literal
+		// comparison, or a '%' in the text would consume it as a plain character.
+		if pi < len(pattern) && pattern[pi] == '%' {
 			starIdx = pi
 			matchIdx = ti
+			pi++
+		} else if pi < len(pattern) && (pattern[pi] == '_' || pattern[pi] == text[ti]) {
+			ti++
 			pi++
 		} else if starIdx != -1 {
 			pi = starIdx + 1
